@@ -519,8 +519,9 @@ class MeshParametrized(Mesh):
             vtx for vtx in self.vertices if vtx.t == initial_time_mesh[-1]
         ]) == len(initial_space_mesh)
 
-        # Ensure that the initial space consists at least of three elements.
-        if self.glue_space and len(self.roots) < 3:
+        # Ensure that the initial space consists at least of three elements
+        # (per time slab: the roots of all slabs must not be counted together).
+        if self.glue_space and len(initial_space_mesh) - 1 < 3:
             for elem in self.roots:
                 self.refine_space(elem)
             leaves = list(self.leaf_elements)
